@@ -2,10 +2,19 @@
 From Coq Require Import Bool.
 From EN Require Import Lib.Bytes Conc.TlsBase Conc.TlsPump.
 
-(* case analysis on "may the send lock be skipped here" without ever looking at the flag *)
+(* case analysis on "may the send lock be skipped here" / "does a successful read return at once" without ever looking
+   at the flags *)
 Ltac flush_cases :=
-  unfold flush_pc in *;
+  unfold done_pc, flush_pc in *; cbn [meth_eqb] in *; rewrite ?andb_false_r, ?andb_true_r in *;
   repeat match goal with
+  | H : context [f_lazyread ?f && meth_eqb ?m MRead] |- _ =>
+      let lz := fresh "lz" in set (lz := f_lazyread f && meth_eqb m MRead) in *; clearbody lz; destruct lz
+  | |- context [f_lazyread ?f && meth_eqb ?m MRead] =>
+      let lz := fresh "lz" in set (lz := f_lazyread f && meth_eqb m MRead) in *; clearbody lz; destruct lz
+  | H : context [if f_lazyread ?f then _ else _] |- _ =>
+      let lz := fresh "lz" in set (lz := f_lazyread f) in *; clearbody lz; destruct lz
+  | |- context [if f_lazyread ?f then _ else _] =>
+      let lz := fresh "lz" in set (lz := f_lazyread f) in *; clearbody lz; destruct lz
   | H : context [f_skiplock ?f && wbio_empty ?s] |- _ =>
       let sk := fresh "sk" in set (sk := f_skiplock f && wbio_empty s) in *; clearbody sk; destruct sk
   | |- context [f_skiplock ?f && wbio_empty ?s] =>
